@@ -46,16 +46,6 @@ Record quantified (e : entity) : Prop := mkQd {
               end = true }.
 
 (* ---- the package scopes are duplicate-free: DERIVED from the user's names being distinct ------------------- *)
-Lemma status_values_names_n : forall p l n0, map fst (status_values_n p l n0) = sp_enum_values_n p l n0.
-Proof.
-  intros p [|s r] n0; [reflexivity|]. cbn [status_values_n sp_enum_values_n].
-  change (sp_explicit_zero p s) with (is_explicit_zero p s).
-  destruct (is_explicit_zero p s && (n0 =? 0)); cbn [map fst]; rewrite number_from_names; reflexivity.
-Qed.
-Lemma status_values_names : forall p l, map fst (status_values p l) = sp_enum_values p l.
-Proof. intros p l. apply status_values_names_n. Qed.
-
-
 Lemma NoDup_map_app_head : forall (c : bytes) (l : list bytes), NoDup l -> NoDup (map (app c) l).
 Proof.
   intros c l H. induction H as [|x l Hn _ IH]; cbn; constructor; [|exact IH].
@@ -1595,6 +1585,21 @@ Theorem full_modulo_reserved : forall e, in_quantifier e = true -> reserved_free
 Proof.
   intros e Hq Hr. destruct (acceptance e Hq Hr) as [cs Hc]. exists cs. split; [exact Hc|].
   destruct (full_partial e cs Hc) as [H1 H2]. split; [exact H1|exact (H2 Hq)].
+Qed.
+
+(* the remaining clauses - exact names, query settings - hold for everything the model of the compiler accepts *)
+Theorem accepted_names_settings : forall e cs, compile e = Ok cs -> spec_names e cs /\ spec_query_settings e cs.
+Proof.
+  intros e cs H. destruct (compile_inv e cs H) as [_ [_ [_ [fl [Hf [-> _]]]]]].
+  split; [apply spec_names_holds|now apply spec_query_settings_holds].
+Qed.
+
+(* THE FULL STATEMENT WITH EVERY CLAUSE of the specification *)
+Theorem full_all_clauses : forall e, in_quantifier e = true -> reserved_free e = true ->
+  exists cs, compile e = Ok cs /\ C17_spec_all e cs.
+Proof.
+  intros e Hq Hr. destruct (full_modulo_reserved e Hq Hr) as [cs [Hc Hs]]. exists cs. split; [exact Hc|].
+  destruct (accepted_names_settings e cs Hc) as [Hn Hg]. split; [exact Hs|]. split; [exact Hn|exact Hg].
 Qed.
 
 (* an entity named Page: its own property in the List response is "page", next to the page field *)
